@@ -46,6 +46,7 @@ type Obligation struct {
 	SchedChoice bool            `json:"sched_choice"`
 	MapOrderChoice bool         `json:"map_order_choice"`
 	HashIDs   bool              `json:"hash_ids"`
+	RaceMode  bool              `json:"race_mode"`
 	AllocBudget int64           `json:"alloc_budget"`
 	AllocCap    int64           `json:"alloc_cap"`
 	StepsArePanic bool          `json:"steps_are_panic"`
@@ -623,7 +624,7 @@ func matchFinding(fs []Finding, prop, obl string, v interp.Violation) *Finding {
 
 func (r *runner) config(o *Obligation, tc *TierCfg, params map[string]int) *interp.Config {
 	cfg := &interp.Config{InitAllow: map[string]bool{}, Replace: o.Replace, TargetPrefix: modPath, MaxSteps: tc.MaxSteps, MaxPaths: tc.MaxPaths,
-		Workers: *workers, SchedChoice: o.SchedChoice, MapOrderChoice: o.MapOrderChoice, HashIDs: o.HashIDs, AllocBudget: o.AllocBudget, AllocCap: o.AllocCap, StepsArePanic: o.StepsArePanic, Params: params,
+		Workers: *workers, SchedChoice: o.SchedChoice, MapOrderChoice: o.MapOrderChoice, HashIDs: o.HashIDs, RaceMode: o.RaceMode, AllocBudget: o.AllocBudget, AllocCap: o.AllocCap, StepsArePanic: o.StepsArePanic, Params: params,
 		TimeoutMs: tc.QueryMs, MaxConcretize: tc.MaxConcretize}
 	for _, a := range interp.DefaultInitAllow {
 		cfg.InitAllow[a] = true
@@ -671,7 +672,7 @@ func (r *runner) buildTestBin(o *Obligation) (string, string) {
 		fmt.Fprintf(&sb, "\t\t%q: %s,\n", n, n)
 	}
 	sb.WriteString("\t})\n\tif code != 0 {\n\t\tos.Exit(code)\n\t}\n}\n")
-	ovDir := filepath.Join(r.scratch, "ov-"+strings.ReplaceAll(key, "/", "_"))
+	ovDir := filepath.Join(r.scratch, "ov-"+strings.NewReplacer("/", "_", "|", "-").Replace(key))
 	os.MkdirAll(ovDir, 0755)
 	repl := map[string]string{}
 	idx := 0
@@ -749,7 +750,11 @@ func (r *runner) runNative(o *Obligation, vf *vectorFile, path string) (string, 
 	if to == 0 {
 		to = 30
 	}
-	cmd := exec.Command("bash", "-c", fmt.Sprintf("ulimit -v 8000000; exec timeout -k 2 %d %s -test.run '^TestZZVerifReplay$' -test.timeout %ds", to+5, bin, to))
+	limit := "ulimit -v 8000000; "
+	if o.ReplayRace {
+		limit = "" // the race detector reserves a huge virtual address range
+	}
+	cmd := exec.Command("bash", "-c", fmt.Sprintf("%sexec timeout -k 2 %d %s -test.run '^TestZZVerifReplay$' -test.timeout %ds", limit, to+5, bin, to))
 	cmd.Dir = filepath.Join(*repo, o.Pkg)
 	if _, err := os.Stat(cmd.Dir); err != nil {
 		cmd.Dir = *repo
@@ -773,6 +778,9 @@ func (r *runner) replayViolation(o *Obligation, params map[string]int, v interp.
 	path := filepath.Join(dir, name)
 	vf := &vectorFile{Property: r.spec.Property, Obligation: o.Name, Pkg: o.Pkg, Harness: o.Func, Params: params, Vector: v.Model, Label: v.Label, Kind: v.Kind, Regions: v.Regions}
 	attempts := 1
+	if v.Kind == "race" {
+		attempts = 40 // the race detector needs the racy accesses to actually overlap in a run
+	}
 	if o.MapOrderChoice || o.SchedChoice {
 		attempts = 30 // native map order / scheduling is random: repeat until the chosen order shows up
 	}
@@ -816,6 +824,8 @@ func nativeConfirms(o *Obligation, v interp.Violation, out string, code int) boo
 		return strings.Contains(out, "ZZVERIF PANIC ") || (code != 0 && (strings.Contains(out, "panic: ") || strings.Contains(out, "fatal error: ")) && !strings.Contains(out, "test timed out"))
 	case "deadlock", "steps":
 		return strings.Contains(out, "test timed out") || strings.Contains(out, "all goroutines are asleep") || code == 124 || code == 137
+	case "race":
+		return strings.Contains(out, "DATA RACE")
 	case "alloc":
 		if strings.Contains(out, "out of memory") || strings.Contains(out, "makeslice") || strings.Contains(out, "cannot allocate") {
 			return true
